@@ -18,6 +18,7 @@ use std::rc::Rc;
 #[derive(Clone, Debug)]
 pub enum OwnN {
     GaussP { prec: Vec<Vec<f64>> },            // -x' P x / 2
+    GaussPC { prec: Vec<Vec<f64>>, c: f64 },   // c - x' P x / 2: an unnormalised log-likelihood with a large additive constant
     Gauss2Lib { mean: [f64; 2], cov: [[f64; 2]; 2] },
     Rosen2 { a: f64, b: f64 },
     Funnel,
@@ -34,6 +35,7 @@ impl OwnN {
     pub fn logp(&self, x: &[f64]) -> f64 {
         match self {
             OwnN::GaussP { prec } => -0.5 * (0..x.len()).map(|i| x[i] * (0..x.len()).map(|j| prec[i][j] * x[j]).sum::<f64>()).sum::<f64>(),
+            OwnN::GaussPC { prec, c } => c + OwnN::GaussP { prec: prec.clone() }.logp(x),
             OwnN::Gauss2Lib { mean, cov } => crate::c02::Own::Gauss2 { mean: *mean, cov: *cov }.logp(x),
             OwnN::Rosen2 { a, b } => crate::c02::Own::Rosen2 { a: *a, b: *b }.logp(x),
             OwnN::Funnel => {
@@ -54,6 +56,7 @@ impl OwnN {
     pub fn grad(&self, x: &[f64]) -> Vec<f64> {
         match self {
             OwnN::GaussP { prec } => (0..x.len()).map(|i| -(0..x.len()).map(|j| 0.5 * (prec[i][j] + prec[j][i]) * x[j]).sum::<f64>()).collect(),
+            OwnN::GaussPC { prec, .. } => OwnN::GaussP { prec: prec.clone() }.grad(x),
             OwnN::Gauss2Lib { mean, cov } => crate::c02::Own::Gauss2 { mean: *mean, cov: *cov }.grad(x),
             OwnN::Rosen2 { a, b } => crate::c02::Own::Rosen2 { a: *a, b: *b }.grad(x),
             OwnN::Funnel => {
@@ -86,6 +89,18 @@ impl<T: Float, B: AutodiffBackend> GradientTarget<T, B> for GaussP {
         let p = Tensor::<B, 2>::from_data(TensorData::new(flat, [d, d]), &x.device());
         let z = x.clone().reshape([1, d as i32]).matmul(p).reshape([d as i32]);
         (z * x).sum().mul_scalar(-0.5)
+    }
+}
+/// The same Gaussian with an additive constant (the constant of a large data set's log-likelihood): cancels in every
+/// energy DIFFERENCE, but only if the differences are taken in the target's own precision.
+#[derive(Clone)]
+pub struct GaussPC {
+    pub prec: Vec<Vec<f64>>,
+    pub c: f64,
+}
+impl<T: Float, B: AutodiffBackend> GradientTarget<T, B> for GaussPC {
+    fn unnorm_logp(&self, x: Tensor<B, 1>) -> Tensor<B, 1> {
+        <GaussP as GradientTarget<T, B>>::unnorm_logp(&GaussP { prec: self.prec.clone() }, x).add_scalar(self.c)
     }
 }
 #[derive(Clone)]
@@ -463,6 +478,21 @@ where
     rand_distr::StandardUniform: rand_distr::Distribution<T>,
     rand_distr::Exp1: rand_distr::Distribution<T>,
 {
+    run_chain_tp::<B, T, G>(target, init, accept_p, seed, runs, force_eps, &[])
+}
+
+/// The same with "teleports": `position` is a public field of the chain; `teleports[k]`, if present, is assigned to it before the
+/// k-th run() call (restarting a warmed-up chain somewhere else).  The transition that follows must be Algorithm 6 FROM THAT POINT:
+/// log-density and gradient of the start are those of the point the chain is at, not of wherever it was.
+#[allow(clippy::too_many_arguments)]
+pub fn run_chain_tp<B: AutodiffBackend, T, G>(target: G, init: Vec<f64>, accept_p: f64, seed: u64, runs: &[(usize, usize)], force_eps: Option<f64>, teleports: &[Option<Vec<f64>>]) -> (Raw, Option<String>)
+where
+    T: Float + burn::tensor::ElementConversion + burn::tensor::Element + rand_distr::uniform::SampleUniform + num_traits::FromPrimitive,
+    G: GradientTarget<T, B> + Sync,
+    rand_distr::StandardNormal: rand::distr::Distribution<T>,
+    rand_distr::StandardUniform: rand_distr::Distribution<T>,
+    rand_distr::Exp1: rand_distr::Distribution<T>,
+{
     let initt: Vec<T> = init.iter().map(|v| T::from(*v).unwrap()).collect();
     let mut ch = NUTSChain::<T, B, G>::new(target, initt, T::from(accept_p).unwrap()).set_seed(seed);
     if let Some(e) = force_eps {
@@ -470,7 +500,12 @@ where
     }
     let ev = capture_raw();
     let r = catch(|| {
-        for (nc, nd) in runs {
+        for (k, (nc, nd)) in runs.iter().enumerate() {
+            if let Some(Some(p)) = teleports.get(k) {
+                let dev = ch.position.device();
+                let data: Vec<T> = p.iter().map(|v| T::from(*v).unwrap()).collect();
+                ch.position = Tensor::<B, 1>::from_data(TensorData::new(data, [p.len()]), &dev);
+            }
             let _ = ch.run(*nc, *nd);
         }
     });
